@@ -12,7 +12,8 @@ order, bounded budget) for an interleaving of the per-goroutine record sequences
 record is enabled in the model state it meets (`stepB … = some _`); if there is none the trace is
 rejected and the deepest state reached is reported.
 
-answer: `ok steps=… skips=… queue=… tasks=… finished=… waiting=… lost=… busy=a:state,…`
+answer: `ok steps=… skips=… movable=… queue=… tasks=… finished=… waiting=… lost=… busy=a:state,…`
+        (`movable`: goroutines whose next micro-step is enabled in the final state; 0 after a genuine hang)
         `rej why=protocol|order|budget at=<k> ev=<event> actor=<state> queue=… | <first pending events>`
         (protocol: the goroutine of `ev` is in a control state in which it can never do `ev`;
          order: no interleaving exists; budget: the search budget ran out — inconclusive)
@@ -169,7 +170,21 @@ def idsOf (es : List Event) : List Nat :=
     | .resu _ p | .newx _ p | .syw _ p | .sywd _ p => [p]
     | .enqc _ p c => [p, c]).eraseDups
 
-def summary (s : Sys) (acts ids : List Nat) : String :=
+/-- can goroutine `a` take its next micro-step in `s`? (a running task always can: its next step is
+    a choice of the program; an idle worker can when the queue is not empty) -/
+def canMove (N Q : Nat) (s : Sys) (a : Nat) : Bool :=
+  match s.act a with
+  | .idle => a < N && !s.queue.isEmpty
+  | .run _ => true
+  | .add _ _ => s.queue.length < Q
+  | .awLock _ p => (s.prom p).locked.isNone
+  | .awTest _ _ | .awSusp _ _ | .awUnl _ | .resPub _ _ _ => true
+  | .wait _ p => (s.prom p).settled.isSome
+  | .resLock _ p _ => (s.prom p).locked.isNone
+  | .resEnq _ (_ :: _) => s.queue.length < Q
+  | .resEnq _ [] => true
+
+def summary (N Q : Nat) (s : Sys) (acts ids : List Nat) : String :=
   let tasks := ids.filter fun t => (s.prom t).kind == .task
   let fin := tasks.filter fun t => (s.prom t).settled.isSome
   let waiting := tasks.filter fun t => match s.loc t with | .waiting _ => true | _ => false
@@ -178,7 +193,9 @@ def summary (s : Sys) (acts ids : List Nat) : String :=
   let holder := fun (a : Nat) => match s.act a with
     | .awLock _ p | .resLock _ p _ => match (s.prom p).locked with | some h => s!"@{h}" | none => "@free"
     | _ => ""
-  s!"queue={s.queue.length} tasks={tasks.length} finished={fin.length} waiting={waiting.length} lost={lost.length} busy=" ++
+  let workers := (List.range N).filter fun a => !acts.contains a
+  let movable := (acts ++ workers).filter fun a => canMove N Q s a
+  s!"movable={movable.length} queue={s.queue.length} tasks={tasks.length} finished={fin.length} waiting={waiting.length} lost={lost.length} busy=" ++
     joinWith "," (busy.map fun a => s!"{a}:{showAState (s.act a)}{holder a}")
 
 def handle : List String → String
@@ -188,10 +205,10 @@ def handle : List String → String
       let acts := actorsOf es
       let ids := idsOf es
       match replay N Q es with
-      | .ok s steps skips => s!"ok steps={steps} skips={skips} " ++ summary s acts ids
+      | .ok s steps skips => s!"ok steps={steps} skips={skips} " ++ summary N Q s acts ids
       | .rej k s pending why =>
         let e := pending.headD (.add 0 0)
-        s!"rej why={why} at={k} ev={showEvent e} actor={showAState (s.act e.actor)} " ++ summary s acts ids ++
+        s!"rej why={why} at={k} ev={showEvent e} actor={showAState (s.act e.actor)} " ++ summary N Q s acts ids ++
           " | " ++ joinWith ";" ((pending.take 6).map showEvent)
     | _, _, _ => "bad-op"
   | _ => "bad-op"
